@@ -1,7 +1,10 @@
 /* Native replay for units/params: runs the REAL SoPlexBase<double> setters (header templates of the current tree + the
- * non-template library sources) on the counterexample inputs and evaluates the clause of the failed instance:
- *   setRealParam_accepted_in_range      accepted ==> lower <= value <= upper (a crash inside the setter counts as a violation)
- *   setIntParam_reject_simplifier_ptr   rejected ==> the simplifier in use (getSimplifierName) is unchanged
+ * non-template library sources) on the counterexample inputs and evaluates the natively observable clauses:
+ *   setRealParam   accepted ==> lower <= value <= upper, NaN outside (a crash inside the setter counts as a violation);
+ *                  rejected ==> the stored value is unchanged
+ *   setIntParam    rejected ==> the simplifier in use (getSimplifierName) and the stored value are unchanged
+ * (the sub-object notifications of the contracts are not observable from outside: a counterexample against those clauses
+ * replays as "not reproduced").
  * The range tables are the real static tables of the tree. */
 #include "replay_util.h"
 #include "soplex.h"
@@ -25,33 +28,40 @@ int main(int argc, char** argv)
    s.setIntParam(SoPlex::VERBOSITY, 0);
    int param = (int)in.geti("param", 0);
    bool init = in.geti("init", 1) != 0;
-   if(inst == "setRealParam_accepted_in_range")
+   if(inst == "setRealParam" || inst == "setRealParam_accepted_in_range")
    {
       if(param < 0 || param >= SoPlex::REALPARAM_COUNT) return 2;
       std::string vs = in.kv.count("value") ? in.kv["value"] : "nan";
       double value = (vs.find("NaN") != std::string::npos || vs.find("NAN") != std::string::npos || vs.find("nan") != std::string::npos) ? std::nan("") : atof(vs.c_str());
       double lo = s.settings().realParam.lower[param], up = s.settings().realParam.upper[param];
       signal(SIGFPE, on_fpe);
+      double stored = s.realParam((SoPlex::RealParam)param);
       bool r = s.setRealParam((SoPlex::RealParam)param, value, init);
       std::cout << "setRealParam(" << param << ", " << value << ", init=" << init << ") -> " << r << ", stored " << s.realParam((SoPlex::RealParam)param)
                 << ", range [" << lo << ", " << up << "]" << std::endl;
       if(r && !(value >= lo && value <= up))
          REPLAY_FAIL("setRealParam accepted a value that is not inside [lower, upper]");
+      double now = s.realParam((SoPlex::RealParam)param);
+      if(!r && memcmp(&stored, &now, sizeof(double)) != 0)
+         REPLAY_FAIL("setRealParam returned false but changed the stored value");
       REPLAY_OK();
    }
-   if(inst == "setIntParam_reject_simplifier_ptr")
+   if(inst == "setIntParam" || inst == "setIntParam_reject_simplifier_ptr")
    {
       if(param < 0 || param >= SoPlex::INTPARAM_COUNT) return 2;
       int value = (int)in.geti("value", 0);
       if(in.geti("simp_in", 0) == 0)
          s.setIntParam(SoPlex::SIMPLIFIER, SoPlex::SIMPLIFIER_OFF);
       std::string before = s.getSimplifierName();
+      int stored = s.intParam((SoPlex::IntParam)param);
       bool r = s.setIntParam((SoPlex::IntParam)param, value, init);
       std::string after = s.getSimplifierName();
       std::cout << "setIntParam(" << param << ", " << value << ", init=" << init << ") -> " << r << ", simplifier " << before << " -> " << after
                 << ", intParam(SIMPLIFIER) = " << s.intParam(SoPlex::SIMPLIFIER) << std::endl;
       if(!r && before != after)
          REPLAY_FAIL("setIntParam returned false but changed the simplifier in use");
+      if(!r && stored != s.intParam((SoPlex::IntParam)param))
+         REPLAY_FAIL("setIntParam returned false but changed the stored value");
       REPLAY_OK();
    }
    std::cout << "no native replay for instance " << inst << std::endl;
